@@ -153,3 +153,32 @@ def std_argv(infile="in.pcapng", keylog="keys.log", out="out.pcapng", extra=()):
     if keylog is not None:
         a += ["-s", "{dir}/" + keylog]
     return a + list(extra)
+
+
+def run_subprocess(files, argv, env=None, cwd=None, timeout=300, outname="out.pcapng"):
+    """process-boundary mode: a fresh interpreter (`python -m tlexport.main`) with its own hash seed, environment and working directory"""
+    import subprocess
+    d = scratch_dir("tlesub")
+    try:
+        for n, b in files.items():
+            with open(os.path.join(d, n), "wb") as f:
+                f.write(b)
+        args = [a.replace("{dir}", d) for a in argv]
+        e = {"PATH": os.environ.get("PATH", "/usr/bin:/bin"), "PYTHONPATH": REPO, "PYTHONDONTWRITEBYTECODE": "1"}
+        e.update(env or {})
+        t0 = time.time()
+        try:
+            p = subprocess.run([sys.executable, "-m", "tlexport.main"] + args, cwd=cwd or d, env=e, capture_output=True, timeout=timeout)
+            status = "ok" if p.returncode == 0 else f"exit:{p.returncode}"
+            so, se = p.stdout, p.stderr
+        except subprocess.TimeoutExpired as ex:
+            status, so, se = "timeout", ex.stdout or b"", ex.stderr or b""
+        out = None
+        try:
+            with open(os.path.join(d, outname), "rb") as f:
+                out = f.read()
+        except FileNotFoundError:
+            pass
+        return Result(status, [out], so, se, time.time() - t0, None)
+    finally:
+        shutil.rmtree(d, ignore_errors=True)
